@@ -8,6 +8,19 @@ use crate::model::pipeline::*;
 pub struct C03Check;
 pub static C03: C03Check = C03Check;
 
+/// what escape processing looks at: backslash, the escape letters, braces, hex digits that reach the surrogate range and
+/// the ends of the code space, a quote
+pub const ESCAPE_ALPHABET: &[&str] = &["\\", "u", "{", "}", "D", "8", "0", "F", "n", "\""];
+
+/// every body over ESCAPE_ALPHABET up to `max_len`, as a text literal (even index) and as a byte-list literal (odd)
+pub fn escape_string(index: u64, max_len: u32) -> String {
+    let body = alphabet_string(index / 2, ESCAPE_ALPHABET, max_len);
+    if index % 2 == 0 { format!("\"{}\"", body) } else { format!("'{}'", body) }
+}
+
+/// stack of the thread the scaling families run on (a host thread has 2 MiB by default; the pipeline needs a few KiB)
+pub const SCALING_STACK: usize = 192 * 1024;
+
 pub const FAMILIES: &[&str] = &[
     "nested-groups", "nested-expressions", "nested-side-effects", "pair-chain", "space-list", "comma-list", "prefix-chain", "suffix-chain", "addition-chain", "precedence-ladder", "else-chain", "and-chain", "subexpressions", "access-chain",
     "long-string", "long-number", "annotations", "unclosed-groups", "closers-only", "operators-only",
@@ -155,7 +168,7 @@ fn classify(out: &PipeOutcome, input: &str, ctx: &mut CaseCtx) {
 impl C03Check {
     fn sizes(tier: Tier) -> Vec<usize> {
         match tier {
-            Tier::Quick => vec![1, 2, 3, 8, 64, 256, 512, 1024, 2048],
+            Tier::Quick => vec![1, 2, 3, 8, 64, 256, 512, 1024, 2048, 16384],
             Tier::Thorough => vec![1, 2, 3, 8, 64, 256, 512, 1024, 2048, 4096, 8192, 16384],
         }
     }
@@ -168,8 +181,8 @@ impl Check for C03Check {
     fn rule(&self) -> String {
         format!(
             "Phase class-sequences: every sequence of up to L token classes ({} classes, one per parser token class incl. brackets, separators, `;;`, annotations; L=4 quick, 5 thorough) x 3 separators (none, space, annotation), in size order; \
-             literal-strings: every string of length <= 6 (quick) / 7 (thorough) over the characters single quote, double quote, 1, 0, space, é, backslash, a, underscore (all literal shapes incl. multi-byte content in every quote form and radix-like numbers); token-soups and char-soups: random sequences of up to 400 tokens / 300 characters (control characters, quotes, backslash, CR, NUL, multi-byte) from a proptest tape; scaling: {} input families (deep nesting, long chains, long literals, unbalanced brackets) at doubling sizes. \
-             Oracle: lex, parse and build (into SimpleGarnishData and BasicGarnishData) each return Ok or Err: no panic (catch_unwind), no abort or hang (worker watchdog, 5 s per case; 60 s for scaling cases), the scaling families (n up to 2048 quick / 16384 thorough) must finish inside a 30 s watchdog (they take < 0.1 s on the unchanged tree). \
+             literal-strings: every string of length <= 6 (quick) / 7 (thorough) over the characters single quote, double quote, 1, 0, space, é, backslash, a, underscore (all literal shapes incl. multi-byte content in every quote form and radix-like numbers); escape-strings: every body of up to 6 (7) items over backslash, u, n, braces, the hex digits D 8 0 F and a quote, as a text and as a byte-list literal; token-soups and char-soups: random sequences of up to 400 tokens / 300 characters (control characters, quotes, backslash, CR, NUL, multi-byte) from a proptest tape; scaling: {} input families (deep nesting, long chains, long literals, unbalanced brackets) at doubling sizes. \
+             Oracle: lex, parse and build (into SimpleGarnishData and BasicGarnishData) each return Ok or Err: no panic (catch_unwind), no abort or hang (worker watchdog, 5 s per case; 60 s for scaling cases), the scaling families (n up to 16384; several families are quadratic: 8 s of CPU at n = 16384, which is why the sizes stop there) must finish inside a 30 s watchdog  and run on a thread with a 192 KiB stack, so that stack use growing with nesting depth or chain length overflows and aborts the worker. \
              Non-trivial = the input lexes (reaches parse); distinct = distinct input strings.",
             TOKEN_CLASSES.len(),
             FAMILIES.len()
@@ -191,6 +204,7 @@ impl Check for C03Check {
             Phase::exhaustive("scaling", (FAMILIES.len() * Self::sizes(tier).len()) as u64).with_chunk(1).with_deadline_ms(30_000),
             Phase::exhaustive("statement-blocks", block_string_count(tier.pick(7, 8))).with_chunk(16384),
             Phase::exhaustive("repetition", repetition_corpus().len() as u64).with_chunk(16),
+            Phase::exhaustive("escape-strings", alphabet_count(ESCAPE_ALPHABET.len() as u64, tier.pick(6, 7)) * 2).with_chunk(16384),
         ]
     }
     fn run(&self, tier: Tier, phase: usize, input: &Input, ctx: &mut CaseCtx) {
@@ -225,7 +239,26 @@ impl Check for C03Check {
                 let n = sizes[(*i as usize) % sizes.len()];
                 let s = family_input(fam, n);
                 ctx.render(|| format!("family {} n={} ({} bytes)", fam, n, s.len()));
-                let out = run_pipeline(&s, ctx);
+                // the scaling families run on a thread with a small stack: the pipeline works with explicit stacks, so
+                // its stack use does not depend on the input; recursion in proportion to nesting depth or chain length
+                // overflows SCALING_STACK at these sizes and aborts the worker, which the orchestrator reports
+                let strict = ctx.strict;
+                let (out, failures) = std::thread::scope(|sc| {
+                    std::thread::Builder::new()
+                        .stack_size(SCALING_STACK)
+                        .spawn_scoped(sc, || {
+                            let mut c = CaseCtx::new(false);
+                            c.strict = strict;
+                            let out = run_pipeline(&s, &mut c);
+                            (out, c.failures)
+                        })
+                        .expect("spawn scaling thread")
+                        .join()
+                        .expect("scaling thread")
+                });
+                for f in failures {
+                    ctx.fail(f.sig, f.detail);
+                }
                 classify(&out, &format!("{}#{}", fam, n), ctx);
                 ctx.class("scaling");
             }
@@ -237,6 +270,12 @@ impl Check for C03Check {
             }
             (6, Input::Index(i)) => {
                 let s = repetition_corpus()[*i as usize].clone();
+                ctx.render(|| format!("{:?}", s));
+                let out = run_pipeline(&s, ctx);
+                classify(&out, &s, ctx);
+            }
+            (7, Input::Index(i)) => {
+                let s = escape_string(*i, tier.pick(6, 7));
                 ctx.render(|| format!("{:?}", s));
                 let out = run_pipeline(&s, ctx);
                 classify(&out, &s, ctx);
